@@ -1247,7 +1247,7 @@ Proof.
 Qed.
 
 (* ================================================================== the unrestricted statement is false *)
-Open Scope string_scope.
+Local Open Scope string_scope.
 Open Scope Z_scope.
 Lemma full_statement_refuted :
   exists t o bs', wf t /\ (match o with OViewStar _ => False | _ => True end) /\ torch_shape o (top_shape t) = Ok bs' /\
